@@ -274,7 +274,7 @@ theorem quoted_some : ∀ (fuel : Nat) (s : St) (v : List Nat) (n : Nat) (u : Li
                     have hcode : code < 0x10000 := by
                       have := hexPrefix_lt 4 rest1 0 code hp; omega
                     rw [runeToString_eq hcode]
-                    refine ⟨by simp [Nat.add_comm, Nat.add_left_comm], by omega, ?_⟩
+                    refine ⟨by simp [Nat.add_comm], by omega, ?_⟩
                     have := ih.2.2
                     rw [hr6] at this
                     simp at this ⊢
@@ -296,7 +296,7 @@ theorem quoted_some : ∀ (fuel : Nat) (s : St) (v : List Nat) (n : Nat) (u : Li
                     have ih := quoted_some fuel (consumeN (1 + 1) s) (v ++ [x]) n' u'
                       (by rw [hr2]; simp at hf ⊢; omega) (by rw [hr2]; exact hv.tail.tail) (by rw [hr2]; exact hb)
                     rw [ih.1, consumeN_add]
-                    refine ⟨by simp [Nat.add_comm, Nat.add_left_comm], by omega, ?_⟩
+                    refine ⟨by simp [Nat.add_comm], by omega, ?_⟩
                     have := ih.2.2
                     rw [hr2] at this
                     simp at this ⊢
